@@ -303,7 +303,11 @@ impl ColumnBuffer {
         self.length += count;
     }
 
-    pub fn finalize(self, name: &str) -> Arc<Column> {
+    pub fn finalize(mut self, name: &str) -> Arc<Column> {
+        // Null maps grow lazily; operators that zip or slice them expect one bit per row.
+        if let Some(present) = self.present.as_mut() {
+            present.resize(self.length.div_ceil(8), 0);
+        }
         match self.buffer {
             TypedBuffer::Empty => Arc::new(Column::null(name, self.length)),
             TypedBuffer::Int(buffer) => buffer.finalize(name, self.present),
